@@ -133,13 +133,14 @@ Proof.
       - cbn. apply mk_key_ok; assumption.
       - destruct (dp_tag pl) as [x|] eqn:Ex; [|constructor]. constructor; [|constructor].
         cbn. apply mk_key_ok; try assumption. apply Htag. reflexivity. }
-    rewrite declare_finish_unfold. destruct (dp_tag pl) as [x|] eqn:Ex; [|intro H; inversion H; subst; exact H1].
-    cbv zeta. destruct (find_exact _ _ n v _) as [[s' r]|] eqn:Ef; [|discriminate].
-    intro H. inversion H. subst acts. apply Forall_app. split; [exact H1|]. apply Forall_app. split.
-    + apply Forall_forall. intros y Hy. apply in_map_iff in Hy. destruct Hy as [r0 [<- _]]. exact I.
-    + constructor; [|constructor]. cbn. apply find_exact_some in Ef. destruct Ef as [Hin _].
-      assert (s' = dp_target pl) by (destruct Hin as [<-|[<-|[]]]; reflexivity). subst s'.
-      apply mk_key_ok; try assumption. apply Htag. reflexivity.
+    intro H. apply declare_finish_shape in H.
+    destruct (dp_tag pl) as [x|] eqn:Ex; [|subst acts; exact H1].
+    destruct H as [rs [rs' [-> _]]].
+    assert (Hdel : forall l, Forall act_safe (map (fun r0 => ADelTag r0 n x (o_flavor o)) l)).
+    { intro l. apply Forall_forall. intros y Hy. apply in_map_iff in Hy. destruct Hy as [r0 [<- _]]. exact I. }
+    apply Forall_app. split; [exact H1|]. apply Forall_app. split; [apply Hdel|].
+    constructor; [|apply Hdel]. cbn.
+    apply mk_key_ok; try assumption. apply Htag. reflexivity.
   - (* AssignTag *)
     bsplit Hok. assert (Hnt : is_tmp n = false) by (destruct (is_tmp n); [discriminate|reflexivity]).
     unfold assign_acts. destruct (find_exact a _ n v _) as [[s' r]|] eqn:Ef; [|discriminate].
